@@ -809,9 +809,14 @@ def vc_list(it=()):
     return list(it)
 
 
-def vc_max(it, key=None):
+def vc_min(it, key=None):
+    return vc_max(it, key=key, _min=True)
+
+
+def vc_max(it, key=None, _min=False):
     if not hasattr(it, "_vc_iter"):
-        return max(it, key=key) if key else max(it)
+        f = min if _min else max
+        return f(it, key=key) if key else f(it)
     col = it._vc_iter()
     v = bv("v!m", col.sort)
     h = C.fresh("argmax", col.sort)
@@ -828,7 +833,7 @@ def vc_max(it, key=None):
         with Binder(v, col.pred(v)):
             kv = key(col.elem(v))
         kh = key(col.elem(h))
-        C.assume(z3.ForAll([v], z3.Implies(col.pred(v), ti(kv) <= ti(kh))))
+        C.assume(z3.ForAll([v], z3.Implies(col.pred(v), (ti(kv) >= ti(kh)) if _min else (ti(kv) <= ti(kh)))))
     else:
         raise Unsupported("max without key over symbolic collection")
     return col.elem(h)
